@@ -285,6 +285,13 @@ def run_driver(case):
     try:
         with contextlib.redirect_stdout(buf):
             e, err = driver.afqmc(hd, ham, prop, trial, dict(wdat), smp, None, options, config.not_MPI())
+    except ValueError as exc:
+        if wt == "rhf" and "good trial overlap" in str(exc) and tuple(ref0[0]) != tuple(ref0[1]):
+            # restricted initial walkers cannot be built for a reference with different alpha / beta strings: explicit, legitimate refusal
+            events.append(ev("driver/initial-walkers-refused", None, key="C11/driver/skip-init-refused", ref_det=[list(ref0[0]), list(ref0[1])]))
+            return {"events": events, "nontrivial": False, "counters": {"driver_rows": 0}}
+        events.append(ev("driver/completed", False, key=key + "/exception", exc=repr(exc)[:400], ref_det=[list(ref0[0]), list(ref0[1])]))
+        return {"events": events, "nontrivial": True, "counters": {"driver_rows": 0}}
     except Exception as exc:
         events.append(ev("driver/completed", False, key=key + "/exception", exc=repr(exc)[:400], ref_det=[list(ref0[0]), list(ref0[1])]))
         return {"events": events, "nontrivial": True, "counters": {"driver_rows": 0}}
